@@ -2,6 +2,7 @@ import EpModel.Lemmas.BuilderChecksum
 import EpModel.Model.ChecksumWire
 import EpModel.Lemmas.CodecNetIpv4
 import EpModel.Props.C08Link
+import EpModel.Model.ChecksumIgmp
 /-
   Helper lemmas for Props/C09Wire.lean: zeroing the checksum field of a header, word sums of the pieces the
   crate's checksum chains add against the words of the header bytes.
@@ -128,5 +129,39 @@ theorem icmp6_parts_words (t : Icmp6Type) (ck : Nat) (ok : icmp6LenOk t) :
   | _ =>
     simp [icmp6Parts, Icmp6.toBytes, Icmp6.return4u8, Icmp6.returnTrivial, zeroAt, Spec.beWords, enc16, enc32, Codec.zeros,
       List.replicate]
+
+theorem list2 (b : Bytes) (h : b.length = 2) : ∃ a0 a1, b = [a0, a1] := by
+  match b, h with
+  | [a0, a1], _ => exact ⟨a0, a1, rfl⟩
+
+theorem igmp_parts_ok (t : IgmpType) (wf : Igmp.IgmpType.WF t) : ∀ p ∈ igmpParts t, PartOk p := by
+  cases t <;> simp_all [igmpParts, PartOk, Igmp.IgmpType.WF]
+
+theorem igmp_parts_words (t : IgmpType) (ck : Nat) (wf : Igmp.IgmpType.WF t) :
+    Spec.beWords (igmpParts t).flatten = Spec.beWords (zeroAt (Igmp.toBytes ⟨t, ck⟩) 2 2) ∧
+      (igmpParts t).flatten.length % 2 = 0 ∧ (zeroAt (Igmp.toBytes ⟨t, ck⟩) 2 2).length % 2 = 0 ∧
+      2 + 2 ≤ (Igmp.toBytes ⟨t, ck⟩).length := by
+  cases t with
+  | membershipQuery m g =>
+    obtain ⟨a0, a1, a2, a3, rfl⟩ := list4 g wf.2
+    simp [igmpParts, Igmp.toBytes, Igmp.eight, zeroAt, Spec.beWords, enc16, Codec.zeros, List.replicate]
+  | membershipQueryWithSources m g r q n =>
+    obtain ⟨a0, a1, a2, a3, rfl⟩ := list4 g wf.2.1
+    simp [igmpParts, Igmp.toBytes, zeroAt, Spec.beWords, enc16]
+  | membershipReportV1 g =>
+    obtain ⟨a0, a1, a2, a3, rfl⟩ := list4 g wf
+    simp [igmpParts, Igmp.toBytes, Igmp.eight, zeroAt, Spec.beWords, enc16, Codec.zeros, List.replicate]
+  | membershipReportV2 g =>
+    obtain ⟨a0, a1, a2, a3, rfl⟩ := list4 g wf
+    simp [igmpParts, Igmp.toBytes, Igmp.eight, zeroAt, Spec.beWords, enc16, Codec.zeros, List.replicate]
+  | leaveGroup g =>
+    obtain ⟨a0, a1, a2, a3, rfl⟩ := list4 g wf
+    simp [igmpParts, Igmp.toBytes, Igmp.eight, zeroAt, Spec.beWords, enc16, Codec.zeros, List.replicate]
+  | membershipReportV3 f n =>
+    obtain ⟨a0, a1, rfl⟩ := list2 f wf.1
+    simp [igmpParts, Igmp.toBytes, Igmp.eight, zeroAt, Spec.beWords, enc16, Codec.zeros, List.replicate]
+  | unknown t r raw =>
+    obtain ⟨a0, a1, a2, a3, rfl⟩ := list4 raw wf.2.2.1
+    simp [igmpParts, Igmp.toBytes, Igmp.eight, zeroAt, Spec.beWords, enc16, Codec.zeros, List.replicate]
 
 end EpModel.Lemmas.WireChains
